@@ -80,13 +80,14 @@ class World:
         return h
 
     def total_ledger(self):
-        calls = req = ret = data = 0
+        calls = req = ret = data = raw = 0
         for f in self.fs.files.values():
             calls += f.ledger["calls"]
             req += f.ledger["req"]
             ret += f.ledger["ret"]
             data += f.ledger["data"]
-        return {"calls": calls, "req": req, "ret": ret, "data": data}
+            raw += f.ledger["raw"]
+        return {"calls": calls, "req": req, "ret": ret, "data": data, "raw": raw}
 
     def step_allowance(self, base: int, per_byte: float, request: int = 0):
         """Allowance function for the step meter: base + per_byte * min(bytes delivered since now, bytes stored + request)."""
